@@ -172,6 +172,20 @@ class C09(fw.Prop):
                                 out.append((kind, dst, src, ssn, rsn, fin, seg, payload))
                         else:
                             out.append((kind, dst, src, ssn, rsn, fin, seg, b""))
+        # information fields that look like protocol: beginning with the LLC headers, the UA's negotiation parameters, flags followed
+        # by what a frame starts with, escape-like sequences, a whole frame as payload - in every kind that carries information
+        llc = [bytes.fromhex(h) for h in ("e6e600", "e6e700", "e6e6", "e6e7", "e6", "e6e600c001c100", "e6e700c401c100120059", "e6e700818012050180",
+                                           "e6e60060", "00e6e600", "818012050180060180070400000001080400000001", "7e", "7e7e", "7e7ea0", "7e7ea8",
+                                           "017e7ea007", "7e7eaf00", "7ea0", "7ea00a", "a00a7e", "7d5e", "7d5d7d5e", "7e7ea00a0321", "ff7e7e")]
+        llc.append(bytes.fromhex("7ea00a000200232193d2a47e"))
+        llc.append(bytes(range(256)) + bytes.fromhex("7e7ea1"))
+        for pre in ("e6e600", "e6e700", "7e7ea3"):
+            llc.append(bytes.fromhex(pre) + bytes(rng.getrandbits(8) for _ in range(rng.choice([1, 17, 126, 300]))))
+        for kind in ("ua", "i", "ui"):
+            for pl in llc:
+                c, sv = clients[0], rng.choice(servers[:2])
+                fin, seg = rng.choice([(1, 0), (1, 0), (0, 1), (1, 1)])
+                out.append((kind, c, sv, rng.randrange(8) if kind == "i" else 0, rng.randrange(8) if kind == "i" else 0, fin, seg, pl))
         return out
 
     def cases(self, rng, tier, deep):
